@@ -42,6 +42,7 @@ def gen_tables(ctx):
     mul16 = ctx.table("mul16")
     mul128 = ctx.table("mul128")
     keys = sparse_row_keys(ctx)
+    assert len(keys) < 126, "too many sparse rows for the unwinding bound of the engine harnesses"
     out = []
     out.append("// generated from the tables the REAL initialisers of /repo produce (native dump, hooks off)\n")
     out.append("use reed_solomon_simd::engine::tables::{ExpLog, LogWalsh, Mul128, Mul16, Multiply128lutT, Skew};\n")
@@ -84,6 +85,31 @@ fn p_exp_log() -> ExpLog {
 fn p_log_walsh() -> Box<LogWalsh> {
     // never read by a harness: eval_poly is replaced by its contract
     Box::new([0; 65536])
+}
+
+fn p_skew_dummy() -> Box<Skew> {
+    Box::new([0; 65535])
+}
+fn p_mul16_dummy() -> Box<Mul16> {
+    Box::new(SparseTable::new(&MUL16_ROWS, SparseMode::Wildcard))
+}
+fn p_mul128_dummy() -> Box<Mul128> {
+    Box::new(SparseTable::new(&MUL128_ROWS, SparseMode::Wildcard))
+}
+fn p_exp_log_dummy() -> ExpLog {
+    ExpLog { exp: Box::new([0; 65536]), log: Box::new([0; 65536]) }
+}
+
+/// providers with dummy contents, for harnesses whose feasible paths never
+/// execute engine arithmetic (error paths of the top-level API)
+pub fn install_dummy_providers() {
+    reed_solomon_simd::verif_hooks::set_table_providers(TableProviders {
+        exp_log: Some(p_exp_log_dummy),
+        log_walsh: Some(p_log_walsh),
+        mul16: Some(p_mul16_dummy),
+        mul128: Some(p_mul128_dummy),
+        skew: Some(p_skew_dummy),
+    });
 }
 
 /// install providers so that the crate's LazyLock statics never run the real initialisers
@@ -176,6 +202,23 @@ def gen_gmat(ctx):
     return "".join(out)
 
 
+def gen_primkat(ctx):
+    """known answers of fft/ifft computed natively by the real NoSimd engine"""
+    import random
+    out = ["// generated: known answers from the real crate (native)\n"]
+    ins = {}
+    for size in (4, 8):
+        rnd = random.Random(size)
+        ins[size] = bytes(rnd.randrange(256) for _ in range(64 * size))
+        out.append(f"pub static IN_{size}: [u8; {64 * size}] = {list(ins[size])};\n")
+    for op, size, trunc, delta in (("fft", 4, 3, 4), ("ifft", 4, 2, 8), ("fft", 8, 5, 0), ("ifft", 8, 8, 8)):
+        resp = ctx.native.cmd(f"prim nosimd {op} 0 {size} {trunc} {delta} 1 {ins[size].hex()}")
+        assert resp.startswith("ok "), resp
+        b = bytes.fromhex(resp.split()[1])
+        out.append(f"pub static OUT_{op.upper()}_{size}_{trunc}_{delta}: [u8; {64 * size}] = {list(b)};\n")
+    return "".join(out)
+
+
 def scan_harnesses():
     """all proof harnesses declared in harness/src/*.rs and gen/*.rs: [(module path, fn)]"""
     found = []
@@ -185,7 +228,9 @@ def scan_harnesses():
         files += [("gen::" + f[:-3], os.path.join(GEN_DIR, f)) for f in sorted(os.listdir(GEN_DIR)) if re.match(r"c\d+\w*\.rs$", f)]
     for mod, path in files:
         txt = open(path).read()
-        for m in re.finditer(r"^\s*h!\(\s*(\w+)\s*,", txt, re.M):
+        for m in re.finditer(r"^\s*h[fx]?!\(\s*(\w+)\s*,", txt, re.M):
+            found.append((mod, m.group(1)))
+        for m in re.finditer(r"^h14!\(\s*(\w+)\s*,", txt, re.M):
             found.append((mod, m.group(1)))
         for m in re.finditer(r"cfg_attr\(kani, kani::proof\)\]\s*(?:#\[[^\]]*\]\s*)*(?:pub )?fn (\w+)", txt):
             found.append((mod, m.group(1)))
@@ -204,7 +249,7 @@ def gen_dispatch(extra=()):
 
 def generate(ctx):
     os.makedirs(GEN_DIR, exist_ok=True)
-    mods = {"tables": gen_tables(ctx), "spec": gen_spec(ctx), "gmat": gen_gmat(ctx)}
+    mods = {"tables": gen_tables(ctx), "spec": gen_spec(ctx), "gmat": gen_gmat(ctx), "primkat": gen_primkat(ctx)}
     import families
     for name in families.FAMILIES:
         mods[name] = families.render(name)
